@@ -160,6 +160,7 @@ pub struct StageStats {
     pub checks: u64,
     pub exhaustive: bool,
     pub kind: &'static str,
+    pub wall_s: f64,
 }
 
 impl StageStats {
@@ -405,6 +406,7 @@ impl RunCtx {
         if self.has_failure() {
             return;
         }
+        let t0 = Instant::now();
         let threads = self.threads.min(cases.max(1) as usize);
         let per = (cases + threads as u64 - 1) / threads as u64;
         let abort = AtomicBool::new(false);
@@ -438,7 +440,14 @@ impl RunCtx {
                         let input = Input::Tape(tape);
                         let mut case = Case::default();
                         case.want_sample = !failed.get() && sample_budget.get() > 0;
+                        let t_case = Instant::now();
                         let r = run_stage_fn(&stage, &input, &mut case);
+                        if let Ok(ms) = std::env::var("EBV_SLOW_MS") {
+                            let el = t_case.elapsed().as_millis();
+                            if el > ms.parse::<u128>().unwrap_or(1000) {
+                                eprintln!("SLOW {} ms stage {} input {}", el, stage.name, input.to_json());
+                            }
+                        }
                         match r {
                             Ok(()) => {
                                 if !failed.get() {
@@ -491,6 +500,7 @@ impl RunCtx {
         let kind = merged.kind;
         s.merge(merged);
         s.kind = kind;
+        s.wall_s += t0.elapsed().as_secs_f64();
         if let Some(f) = first_fail {
             self.failures.push(f);
         }
@@ -501,6 +511,7 @@ impl RunCtx {
         if self.has_failure() {
             return;
         }
+        let t0 = Instant::now();
         let threads = self.threads.min(n.max(1) as usize);
         let abort = AtomicBool::new(false);
         let results: Mutex<Vec<(StageStats, Option<(u64, Failure)>)>> = Mutex::new(Vec::new());
@@ -557,6 +568,7 @@ impl RunCtx {
         let s = self.stats_mut(stage.name);
         s.merge(merged);
         s.kind = "enumeration";
+        s.wall_s += t0.elapsed().as_secs_f64();
         s.exhaustive = exhaustive && !failed;
         if let Some((_, f)) = best {
             self.failures.push(f);
@@ -724,6 +736,7 @@ pub fn evidence_json(rc: &RunCtx, rule: &str, assumptions: &[&str], violations: 
                 "distinct_nontrivial": s.distinct_nontrivial(),
                 "oracle_checks": s.checks,
                 "exhaustive": s.exhaustive,
+                "wall_s": (s.wall_s * 1000.0).round() / 1000.0,
                 "labels": Value::Object(lj),
             }),
         );
